@@ -44,6 +44,15 @@ CLAIMS = {
     "C11": dict(tech=TECH, ref="DESIGN.md section 3 C11 and section 7",
                 text="symbolic input graphs (every out-index shape with <=3 nodes and <=3 edges in the quick tier, 4 edges in the thorough tier; destinations, edge data and lookup keys symbolic; self loops, parallel edges, isolated and trailing edge-less nodes included) are built through the real FileGraph and handed to the real graph constructors on one modelled thread: LC_CSR_Graph (three construction paths), LC_CSR_CSC_Graph, LC_InOut_Graph, LC_Linear_Graph, LC_InlineEdge_Graph enumerate exactly the input in file order; transpose, sortAllEdgesByDst, sortEdgesByEdgeData, findEdge, findEdgeSortedByDst (incl. no access outside [0,numEdges)), local node ranges.",
                 note="The out-index is enumerated (56 shapes), not symbolic; do_all/on_each run their body once on thread 0 (Loops.h cut); LargeArray/mmap are zero-filled malloc blocks (page size scaled to 128 bytes for the layouts that round). Multi-thread construction, LC_Morph_Graph, LC_Adaptor_Graph, LC_CSR_Hypergraph, in-edge sorting are outside."),
+    "C01": dict(tech=TECH, ref="DESIGN.md section 3 C01 and section 7",
+                text="compositional, one modelled worker: work conservation (pop returns only what was pushed and not yet popped, nothing stranded after flush/drain, nothing twice) for ChunkFIFO/LIFO, PerSocketChunkFIFO/LIFO/Bag, PerThreadChunkFIFO/LIFO (incl. steal attempts on an idle peer), GFIFO/GLIFO/FIFO/LIFO over the real gdeque/std::deque, LocalQueue, OwnerComputes, StableIterator, BulkSynchronous, OBIM (BSP / barrier) on operation sequences with symbolic payloads; AbortHandler forwarding policies over a SYMBOLIC topology (8 threads, <=4 sockets, symbolic activeThreads/tid/retries): exactly one queue receives the item, its index < activeThreads; one iteration of the real ForEachExecutor (commit, voluntary abort, conflict via the real setjmp/longjmp path, retry from the abort queue, no-conflict mode): on commit exactly the pushes become work, on abort the worklist is unchanged, the abort queue holds the item, the push buffer is empty, no lockable is owned.",
+                note="PtrLock is replaced by a two-field model (same interface, lock discipline checked) in the one-worker units because CBMC cannot fold a pointer through (uintptr_t)p|1; OBIM bucket index is constant per operation kind; multi-worker interleavings of the executor, the deterministic executor (C07) and loop exit (C04) are outside."),
+    "C07": dict(tech=TECH, ref="DESIGN.md section 3 C07 and section 7",
+                text="fragment: the mechanism that makes the commit set a function of ids - DeterministicContextBase<Options,false,false>::alwaysAcquire (lowest id wins, loser is disabled) over the real Lockable / PtrLock::stealing_CAS: for 3 iterations with symbolic distinct ids and symbolic mark subsets over 2 lockables, in every enumerated ORDER of the marks, the owner of each lockable is the smallest-id iteration that marked it and an iteration is ready iff it has the smallest id on every lockable it marked.",
+                note="Marking operations are atomic here (orders, not intra-operation interleavings); id assignment and merge of new work (NewWorkManager), DAG mode, intent-to-read, local state, deterministic break, window arithmetic and the end-to-end 'bit-identical across thread counts' statement are outside and not claimed."),
+    "C08": dict(tech=TECH, ref="DESIGN.md section 3 C08 and section 7",
+                text="fragment, one modelled worker: BulkSynchronous over ChunkFIFO - every popped item belongs to the oldest round that still has queued work, conservation (programs of up to 4 rounds); OBIM with the barrier option, ascending and descending - pop does not leave a non-empty level, otherwise takes the most urgent queued level, monotone programs pop level-sorted, empty() exactly when nothing is queued; back-scan prevention post-condition after every push (scanStart <= i and <= curIndex) with and without barrier.",
+                note="The two-or-more-worker behaviour around the level switch (the leader/non-leader asymmetry, empty() agreement across threads), AdaptiveObim and aborts combined with these schedulers are outside; PtrLock model as in C01."),
     "C16": dict(tech=TECH, ref="DESIGN.md section 3 C16 and section 7",
                 text="with the guarded hook shrinking the serial cut-off and block size to 1-3: dual_partition (two ranges of <=3 symbolic booleans), partition_helper_state step contracts, partition_helper for one worker (and two workers run in sequence) followed by the tail of partition() on arrays of <=7 symbolic predicate bits (valid partition point, permutation, no access outside the range), one sort_helper step with an arbitrary pivot, count_if / accumulate / map_reduce / find_if / partial_sum (incl. empty trailing blocks) / destroy end to end on <=6 elements with 1..3 modelled threads.",
                 note="Hook: GALOIS_PSTL_CUTOFF / GALOIS_PSTL_BLOCK (MANIFEST.hooks). End-to-end sort() (std::sort over solver-dependent bounds did not finish), interleaved partition helpers, and the real ForEach/do_all executors (harness stand-ins, listed in the evidence) are outside."),
